@@ -382,7 +382,7 @@ let handle_io (toks : string list) : string =
      | Err f -> "ER " ^ str_fail f)
   | _ -> "BADCASE"
 
-let handle (line : string) : string =
+let rec handle (line : string) : string =
   match List.filter (fun x -> x <> "") (String.split_on_char ' ' line) with
   | ["ENC"; a; t; d] | ["ENCB"; a; t; d] ->
     let f = { f_addr = num a; f_type = num t; f_data = bytes_of_hex d } in
@@ -422,6 +422,10 @@ let handle (line : string) : string =
         | Some (res, r') -> r := r';
           (match res with Ok f -> "OK " ^ str_msg (msg_of_frame f) | Err (RFrame e) -> str_ferr e | Err RIo -> "ER IO")) ms in
     Printf.sprintf "%s | left=%d" (String.concat " ; " outs) (List.length !r.r_content)
+  | "TLSD" :: inner ->
+    (* the inner case on a fresh thread and twice more while that thread is torn down: a pure function gives the same *)
+    let r = handle (String.concat " " inner) in
+    Printf.sprintf "main=%s ; d1=%s ; d2=%s" r r r
   | ["MT"; _; _] -> "OK"   (* the model is a pure function: concurrent calls cannot influence one another *)
   | ["ST"; s] ->
     (match st_from_bytes (bytes_of_hex s) with
